@@ -165,6 +165,22 @@ func genPair(r *PRNG, tier, prop string, o pairOpts) *Scenario {
 					if nx.Kind == "nw" {
 						nx.End = "close"
 					}
+					if !o.noCtlMsgs && r.Chance(1, 3) {
+						// the open writer is closed implicitly by a *control* message sent through
+						// WriteMessage or NextWriter (documented for every NextWriter, of which WriteMessage
+						// is a helper): the data message must be completed first, then the control frame
+						cmt := 10
+						if isClient && r.Bool() {
+							cmt = 9
+						}
+						cln := r.Pick([]int{0, 1, 50, 124, 125})
+						cpay := Payload{Len: cln, Seed: r.Uint64() >> 1}
+						if r.Bool() {
+							nx = WOp{Kind: "msg", MT: cmt, Pay: cpay}
+						} else {
+							nx = WOp{Kind: "nw", MT: cmt, Pay: cpay, Chunks: genChunks(r, cln), End: "close"}
+						}
+					}
 					ops = append(ops, nx)
 				}
 				// control traffic from the writer goroutine
